@@ -115,6 +115,33 @@ func init() {
 						c.Violation(fmt.Sprintf("gen%d-differs", g), fmt.Sprintf("generation %d differs from generation %d: %s", g, g-1, firstDiff(stripVersionLine(prev), stripVersionLine(gen))), nil, nil)
 					}
 					if g == 1 {
+						// the same files in the same merge order, named differently: one -i per file; one glob for all (gontainer.yaml
+						// sorts before gontainer_*.yaml); the Makefile's two patterns with the first one repeated as a dirty path
+						ents, _ := filepath.Glob(filepath.Join(repo, "internal/gontainer/gontainer_*.yaml"))
+						var each []string
+						each = append(each, "-i", "internal/gontainer/gontainer.yaml")
+						for _, e := range ents {
+							each = append(each, "-i", "internal/gontainer/"+filepath.Base(e))
+						}
+						forms := map[string][]string{
+							"one -i per file": each,
+							"single glob":     {"-i", "internal/gontainer/gontainer*.yaml"},
+							"uncleaned paths": {"-i", "./internal/gontainer/../gontainer/gontainer.yaml", "-i", "internal//gontainer/gontainer_*.yaml"},
+						}
+						for name, args := range forms {
+							alt := filepath.Join(w.Dir, "alt.go")
+							os.Remove(alt)
+							run := exec.Command(bin, append(append([]string{"build"}, args...), "-o", alt)...)
+							run.Dir = tree
+							b, err := run.CombinedOutput()
+							c.Count("generations")
+							c.Count("evaluations_extra")
+							c.Distinct("nontrivial", "form:"+name)
+							got, _ := os.ReadFile(alt)
+							if err != nil || stripVersionLine(string(got)) != stripVersionLine(gen) {
+								c.Violation("invocation-form-differs", fmt.Sprintf("naming the same files in the same order as %q (%v) does not reproduce the output of the Makefile's patterns: %v %s\n%s", name, args, err, firstDiff(stripVersionLine(gen), stripVersionLine(string(got))), tailStr(string(b), 1500)), nil, nil)
+							}
+						}
 						// the Makefile's self-compile target writes over the checked-in file: same bytes as to a fresh path
 						ip := filepath.Join(w.Dir, "tree-inplace")
 						os.RemoveAll(ip)
